@@ -381,15 +381,29 @@ func round(ctx *context, args []Datum) (retNum Datum) {
 
 	num0 := args[0].Number("round()")
 
-	// Trunc() rounds towards zero.
-	var rounded = 0.0
-	if num0 >= 0 {
-		rounded = float64(math.Trunc(0.5 + num0))
-	} else {
-		rounded = -float64(math.Trunc(0.5 - num0))
-	}
+	return NewNumDatum(xpathRound(num0))
+}
 
-	return NewNumDatum(rounded)
+// XPATH 1.0 section 4.4: the integer closest to the argument; if there are
+// two such numbers, the one closest to positive infinity.  NaN, the
+// infinities and the zeros are returned unchanged, and an argument in
+// [-0.5, -0) gives negative zero.
+//
+// 'num - Floor(num)' is exact, so no precision is lost for large values or
+// for values just below a half (Trunc(num+0.5) rounds 0.49999999999999994
+// up to 1 and, for negative numbers, rounded -0.5 to -1).
+func xpathRound(num float64) float64 {
+	if num == 0 || math.IsNaN(num) || math.IsInf(num, 0) {
+		return num
+	}
+	rounded := math.Floor(num)
+	if num-rounded >= 0.5 {
+		rounded = rounded + 1
+	}
+	if rounded == 0 {
+		return math.Copysign(0, num)
+	}
+	return rounded
 }
 
 func position(ctx *context, args []Datum) (retNum Datum) {
